@@ -39,16 +39,39 @@ def _eval_chain_test(test, member, flags):
     raise AnalysisError(f'A14: unrecognised dispatch test `{norm(test)}`')
 
 
+def _ends(stmts):
+    return bool(stmts) and isinstance(stmts[-1], (ast.Return, ast.Raise, ast.Continue, ast.Break))
+
+
+def _select(stmts, member, flags):
+    """The statements executed for `member`: dispatch tests (on the constraint type / on flags) are decided, the
+    selected branch is spliced in, and what follows a branch that does not end in an exit is kept - so an
+    if/elif/else chain, a sequence of guard clauses (`if t != M: raise` followed by the code for M) and mixtures
+    of both select the same statements."""
+    out = []
+    for st in stmts:
+        if isinstance(st, ast.If):
+            try:
+                val = _eval_chain_test(st.test, member, flags)
+            except AnalysisError:
+                if 'ChoiceConstraintType' in norm(st.test):
+                    raise
+                val = None
+            if val is not None:
+                sel = _select(st.body if val else st.orelse, member, flags)
+                out += sel
+                if _ends(sel):
+                    return out
+                continue
+        out.append(st)
+        if _ends([st]):
+            return out
+    return out
+
+
 def chain_branch(chain_if, member, flags):
-    """The body (list of statements) selected by an if/elif/else chain for the member, or None."""
-    node = chain_if
-    while True:
-        if _eval_chain_test(node.test, member, flags):
-            return node.body
-        if len(node.orelse) == 1 and isinstance(node.orelse[0], ast.If):
-            node = node.orelse[0]
-            continue
-        return node.orelse
+    """The statements selected by a dispatch over the constraint type for the member (see _select)."""
+    return _select([chain_if], member, flags)
 
 
 def find_chain(fn, subject_pred):
@@ -313,32 +336,65 @@ def check_dispatchers(ctx, rule='A7'):
         if fn.module.name.startswith('adsg_core.examples') or 'export' in fn.module.name or \
                 'render' in fn.module.name:
             continue
+        # dispatch regions: a dispatching `if` together with what follows it in its block (guard-clause form:
+        # `if t != M: raise` followed by the code for M); dispatching ifs inside the else part of a region belong
+        # to that region
         chains = []
         seen_orelse = set()
-        for s in walk_fn(fn):
-            if isinstance(s, ast.If) and id(s) not in seen_orelse and 'ChoiceConstraintType.' in norm(s.test):
-                node = s
-                while len(node.orelse) == 1 and isinstance(node.orelse[0], ast.If):
-                    seen_orelse.add(id(node.orelse[0]))
-                    node = node.orelse[0]
-                chains.append(s)
-        for ch in chains:
+
+        def is_dispatch(st):
+            return isinstance(st, ast.If) and 'ChoiceConstraintType.' in norm(st.test)
+
+        def mark(stmts):
+            for st in stmts:
+                if is_dispatch(st):
+                    seen_orelse.add(id(st))
+                    mark(st.orelse)
+
+        def blocks(node):
+            for f in ('body', 'orelse', 'finalbody'):
+                b = getattr(node, f, None)
+                if isinstance(b, list) and b and isinstance(b[0], ast.stmt):
+                    yield b
+            for h in getattr(node, 'handlers', []):
+                yield h.body
+        todo = [fn.node]
+        while todo:
+            nd = todo.pop(0)
+            if isinstance(nd, (ast.FunctionDef, ast.AsyncFunctionDef, ast.Lambda, ast.ClassDef)) and nd is not fn.node:
+                continue
+            for b in blocks(nd):
+                for i, st in enumerate(b):
+                    if is_dispatch(st) and id(st) not in seen_orelse:
+                        mark(st.orelse)
+                        # further dispatching guards of the same block belong to this region
+                        for later in b[i + 1:]:
+                            if is_dispatch(later):
+                                seen_orelse.add(id(later))
+                                mark(later.orelse)
+                        chains.append((st, b[i + 1:]))
+                    todo.append(st)
+        for ch, rest in chains:
             n += 1
             ctx.touch(fn)
             flags_names = set()
-            node = ch
-            while True:
-                flags_names |= {x.id for x in ast.walk(node.test) if isinstance(x, ast.Name)}
-                if len(node.orelse) == 1 and isinstance(node.orelse[0], ast.If):
-                    node = node.orelse[0]
-                else:
-                    break
+            for x in [ch] + [r for r in rest if is_dispatch(r)]:
+                node = x
+                while True:
+                    flags_names |= {y.id for y in ast.walk(node.test) if isinstance(y, ast.Name)}
+                    nxt = [o for o in node.orelse if is_dispatch(o)]
+                    if nxt:
+                        node = nxt[0]
+                    else:
+                        break
+            guard_region = any(is_dispatch(r) for r in rest) or (not ch.orelse and _ends(ch.body))
             try:
                 decided = {}
                 for m in members:
                     fl = {nm: True for nm in flags_names}
-                    body = chain_branch(ch, m, fl)
-                    body2 = chain_branch(ch, m, {nm: False for nm in flags_names})
+                    region = [ch] + (list(rest) if guard_region else [])
+                    body = _select(region, m, fl)
+                    body2 = _select(region, m, {nm: False for nm in flags_names})
                     decided[m] = bool(body) or bool(body2)
                 undecided = [m for m in members if not decided[m]]
             except AnalysisError:
